@@ -1712,13 +1712,29 @@ impl Expr {
                 else_expr,
                 ..
             } => {
-                if let Some((_, then_expr)) = when_then.first() {
-                    then_expr.data_type(schema)
-                } else if let Some(else_expr) = else_expr {
-                    else_expr.data_type(schema)
-                } else {
-                    Ok(ArrowDataType::Null)
+                // Same fold as evaluate_case (physical/operators/filter.rs): branches are combined
+                // from the last one; when THEN and the accumulated type differ the result is
+                // Float64 if either is Float64, otherwise THEN's type. Reporting the first THEN's
+                // type alone said Int64 for `CASE WHEN c THEN int_col ELSE 1.5 END` while the
+                // batches carried Float64.
+                let mut acc: Option<ArrowDataType> = match else_expr {
+                    Some(e) => Some(e.data_type(schema)?),
+                    None => None,
+                };
+                for (_, then_expr) in when_then.iter().rev() {
+                    let t = then_expr.data_type(schema)?;
+                    acc = Some(match acc {
+                        Some(a) if a != t => {
+                            if a == ArrowDataType::Float64 || t == ArrowDataType::Float64 {
+                                ArrowDataType::Float64
+                            } else {
+                                t
+                            }
+                        }
+                        _ => t,
+                    });
                 }
+                Ok(acc.unwrap_or(ArrowDataType::Null))
             }
             Expr::InList { .. }
             | Expr::Between { .. }
